@@ -158,6 +158,7 @@ func (fc *FnCtx) run() (err error) {
 	if len(fn.Blocks) == 0 {
 		return fmt.Errorf("%s: no body", fc.name)
 	}
+	resetLin()
 	order := fc.findLoops()
 	fc.declare("ac0", sInt)
 	st := &State{heap: map[string]string{}, gen: 0, ac: "ac0"}
@@ -182,7 +183,7 @@ func (fc *FnCtx) run() (err error) {
 				arr := fc.heapGet(st, "M:bv8.", memSort(sBV(8)))
 				for k := 0; k < 64; k++ {
 					fc.watchBase = append(fc.watchBase, watch{fmt.Sprintf("%s[%d]", p.Name(), k),
-						sx("select", sx("select", arr, v.T[0]), sx("bvadd", v.T[1], bvLit(uint64(k), 64)))})
+						sx("select", sx("select", arr, v.T[0]), add64(v.T[1], bvLit(uint64(k), 64)))})
 				}
 			}
 		}
@@ -208,6 +209,9 @@ func (fc *FnCtx) run() (err error) {
 		for _, r := range fc.c.Requires {
 			fc.assumeGlobal(env.evalBool(r.E))
 		}
+		for _, r := range fc.c.Hints {
+			fc.assumeGlobal(env.evalBool(r.E))
+		}
 		for _, r := range fc.c.Assumes {
 			fc.assumeGlobal(env.evalBool(r.E))
 			fc.assumptions[fmt.Sprintf("assume in %s: %s", fc.name, r.Text)] = true
@@ -219,6 +223,34 @@ func (fc *FnCtx) run() (err error) {
 				if wx, err := ParseExpr(k.Witness); err == nil {
 					fc.witness[k.Obligation] = fc.def("witness", sBool, env.evalBool(wx))
 				}
+			}
+		}
+		// proof by cases: every split line is a dimension (its alternatives plus "none of them");
+		// the cases are the cross product of the dimensions
+		fc.splits = []string{"true"}
+		for _, dim := range fc.c.SplitDims {
+			var alts, negs []string
+			for _, sp := range dim {
+				t := fc.def("split", sBool, env.evalBool(sp.E))
+				alts = append(alts, t)
+				negs = append(negs, not(t))
+			}
+			alts = append(alts, fc.def("splitnone", sBool, and(negs...)))
+			var next []string
+			for _, c := range fc.splits {
+				for _, a := range alts {
+					next = append(next, and(c, a))
+				}
+			}
+			fc.splits = next
+		}
+		if len(fc.c.SplitDims) == 0 {
+			fc.splits = nil
+		}
+		fc.splitAt = len(fc.items)
+		if !fc.dry {
+			for _, ck := range fc.c.Checks {
+				fc.oblige("entry", ck.Label, env.evalBool(ck.E), fn.Pos(), fc.clauseProps(ck), ck.Text)
 			}
 		}
 		if !fc.dry {
@@ -344,8 +376,10 @@ func (fc *FnCtx) loopSpec(h *ssa.BasicBlock) *LoopSpec {
 func (fc *FnCtx) loopEnv(h *ssa.BasicBlock, st *State, phiVals map[string]V) *Env {
 	env := fc.newEnv(st, fc.entry)
 	env.at = h
+	env.phiNames = map[string]bool{}
 	for k, v := range phiVals {
 		env.vars[k] = v
+		env.phiNames[k] = true
 	}
 	return env
 }
@@ -387,6 +421,25 @@ func (fc *FnCtx) loopHeader(h *ssa.BasicBlock, phis []*ssa.Phi) {
 	}
 	if fc.dry {
 		fc.havocAll(fc.cur)
+	} else if ls != nil && len(ls.Modifies) > 0 {
+		// explicit loop frame: only the listed locations change (every write in the body is checked against it)
+		env := fc.loopEnv(h, fc.cur, fc.phiNames(phis, func(p *ssa.Phi) V { return fc.vals[p] }))
+		pre := fc.cur.clone()
+		envOld := &Env{fc: fc, vars: env.vars, bound: env.bound, cur: pre, old: pre, oldAc: pre.ac, pkg: env.pkg, at: h}
+		var ts []modTarget
+		for _, m := range ls.Modifies {
+			ts = append(ts, envOld.resolveTarget(m)...)
+		}
+		if fc.loopTargets == nil {
+			fc.loopTargets = map[*ssa.BasicBlock]*loopFrame{}
+		}
+		fc.loopTargets[h] = &loopFrame{targets: ts, ac: pre.ac, text: strings.Join(ls.Modifies, ", ")}
+		for _, m := range ls.Modifies {
+			fc.havocTargetNoCheck(env, pre, m)
+		}
+		nac := fc.fresh("ac", sInt)
+		fc.assume(sx(">=", nac, fc.cur.ac))
+		fc.cur.ac = nac
 	} else {
 		if fc.prev.loopAll[h] {
 			fc.havocAll(fc.cur)
@@ -414,6 +467,9 @@ func (fc *FnCtx) loopHeader(h *ssa.BasicBlock, phis []*ssa.Phi) {
 		env := fc.loopEnv(h, fc.cur, fc.phiNames(phis, func(p *ssa.Phi) V { return fc.vals[p] }))
 		for _, inv := range ls.Invariants {
 			fc.assume(env.evalBool(inv.E))
+		}
+		for _, hc := range ls.Hints {
+			fc.assume(env.evalBool(hc.E))
 		}
 		if ls.Decreases != nil {
 			d := env.eval(ls.Decreases.E)
@@ -461,6 +517,9 @@ func (fc *FnCtx) loopBackEdge(from, h *ssa.BasicBlock, cond string) {
 			pos = p
 			break
 		}
+	}
+	for _, hc := range ls.Hints {
+		fc.assume(env.evalBool(hc.E))
 	}
 	for _, inv := range ls.Invariants {
 		fc.oblige(fmt.Sprintf("inv%d.preserve", ord), inv.Label, env.evalBool(inv.E), pos, fc.clauseProps(inv), inv.Text)
@@ -583,6 +642,10 @@ func (fc *FnCtx) execInstr(in ssa.Instruction) {
 
 func (fc *FnCtx) allocRef(hint string) string {
 	r := fc.def(hint, sInt, fc.cur.ac)
+	if fc.localRefs == nil {
+		fc.localRefs = map[string]bool{}
+	}
+	fc.localRefs[r] = true
 	fc.cur.ac = fc.def("ac", sInt, sx("+", fc.cur.ac, "1"))
 	return r
 }
@@ -602,8 +665,14 @@ func (fc *FnCtx) binop(op token.Token, a, b V, rt types.Type, pos token.Pos) V {
 		uns := isUnsigned(a.Ty)
 		switch op {
 		case token.ADD:
+			if w == 64 {
+				return res(add64(x, y))
+			}
 			return res(sx("bvadd", x, y))
 		case token.SUB:
+			if w == 64 {
+				return res(sub64(x, y))
+			}
 			return res(sx("bvsub", x, y))
 		case token.MUL:
 			return res(sx("bvmul", x, y))
@@ -916,7 +985,7 @@ func (fc *FnCtx) indexAddr(x *ssa.IndexAddr) {
 			fc.safe("index", sx("bvult", i, b.T[2]), x.Pos(), match)
 			fc.assume(sx("bvult", i, b.T[2]))
 		}
-		fc.vals[x] = V{Ty: x.Type(), T: []string{b.T[0]}, Loc: &Loc{Kind: locElem, Ref: b.T[0], Idx: fc.def("idx", sBV(64), sx("bvadd", b.T[1], i)), Ty: u.Elem()}}
+		fc.vals[x] = V{Ty: x.Type(), T: []string{b.T[0]}, Loc: &Loc{Kind: locElem, Ref: b.T[0], Idx: fc.def("idx", sBV(64), add64(b.T[1], i)), Ty: u.Elem()}}
 	case *types.Pointer: // pointer to array
 		arr := u.Elem().Underlying().(*types.Array)
 		l := fc.locOf(b)
@@ -927,7 +996,7 @@ func (fc *FnCtx) indexAddr(x *ssa.IndexAddr) {
 		if l.Kind != locElem {
 			panic(unsupported("array inside a struct"))
 		}
-		fc.vals[x] = V{Ty: x.Type(), T: []string{l.Ref}, Loc: &Loc{Kind: locElem, Ref: l.Ref, Idx: fc.def("idx", sBV(64), sx("bvadd", l.Idx, i)), Ty: arr.Elem()}}
+		fc.vals[x] = V{Ty: x.Type(), T: []string{l.Ref}, Loc: &Loc{Kind: locElem, Ref: l.Ref, Idx: fc.def("idx", sBV(64), add64(l.Idx, i)), Ty: arr.Elem()}}
 	default:
 		panic(unsupported("IndexAddr on " + x.X.Type().String()))
 	}
@@ -1006,7 +1075,7 @@ func (fc *FnCtx) slice(x *ssa.Slice) {
 		fc.declareFun("substr", []string{sInt, sBV(64), sBV(64)}, sInt)
 		sid := fc.def("substr", sInt, ite(and(eq(lo, bvLit(0, 64)), eq(hi, ln)), v.T[0], sx("substr", v.T[0], lo, hi)))
 		nv := V{Ty: x.Type(), T: []string{sid}}
-		fc.assume(eq(sx("slen", sid), sx("bvsub", hi, lo)))
+		fc.assume(eq(sx("slen", sid), sub64(hi, lo)))
 		fc.assume(fc.wf(nv, fc.cur))
 		i := "i!q"
 		fc.assume(fmt.Sprintf("(forall ((%s (_ BitVec 64))) (! (=> (bvult %s (bvsub %s %s)) (= (select (strarr %s) %s) (select (strarr %s) (bvadd %s %s)))) :pattern ((select (strarr %s) %s))))",
@@ -1014,7 +1083,7 @@ func (fc *FnCtx) slice(x *ssa.Slice) {
 		fc.vals[x] = nv
 		return
 	}
-	nv := V{Ty: x.Type(), T: []string{base, sx("bvadd", off, lo), sx("bvsub", hi, lo), sx("bvsub", mx, lo)}}
+	nv := V{Ty: x.Type(), T: []string{base, add64(off, lo), sub64(hi, lo), sub64(mx, lo)}}
 	fc.vals[x] = fc.defV(x.Name(), nv)
 }
 
@@ -1302,12 +1371,18 @@ func (fc *FnCtx) checkPosts(results []V, pos token.Pos, site string) {
 				}
 			}
 		}
+		_ = 0
 		for i, n := range c.Results {
 			if i < len(results) {
 				rv := results[i]
 				rv = fc.coerce(rv, sig.Results().At(i).Type())
 				rv.Ty = sig.Results().At(i).Type()
 				env.vars[n] = rv
+			}
+		}
+		if c == fc.c {
+			for _, hc := range c.PostHints {
+				fc.assume(env.evalBool(hc.E))
 			}
 		}
 		pre := "true"
